@@ -1,5 +1,9 @@
 import C2paModel.Lemmas.C03Base
 import C2paModel.Lemmas.C03Split
+import C2paModel.Lemmas.C03Count
+import C2paModel.Lemmas.C03Splice
+import C2paModel.Lemmas.C03NoEmbed
+import C2paModel.Lemmas.C03Report
 /-
 C03 — property theorems. The statement (properties.jsonl):
 
@@ -8,89 +12,151 @@ C03 — property theorems. The statement (properties.jsonl):
   manifest (…). The reported active manifest carries exactly the title, format, claim
   generator, assertions (labels and data), ingredients and redactions that were supplied.
 
-What is proved here, about `Model/C03.lean`:
+What is proved here, about `Model/C03.lean` (every hypothesis is about the inputs — the
+handler, serialiser, digest and signer functions, the source, the chunk sizes — none about model
+intermediates; the hasher's preconditions are *derived*, `Lemmas/C03Count.lean`):
 
-* `sign_then_verify_valid` — the two-pass flow succeeds and the hard binding it stores verifies
-  on the final asset, for every handler obeying the two laws of `Laws` (the handler reports a
-  non-empty in-range exclusion list for what it wrote; replacing the payload by one of equal
-  length changes neither the length nor any byte outside those exclusions), every JUMBF
-  serialisation whose length is `base + |DataHash assertion| + |signature box|`, every signer
-  that fills its reserve (C14), every digest function, every chunk size of signer and verifier.
+* `sign_then_verify_core` / `sign_then_verify_valid` — the two-pass flow succeeds and the hard
+  binding it stores verifies on the final asset (the verifier absorbs exactly the bytes whose
+  digest is stored), for every handler obeying `Laws` (non-empty in-range exclusion list for what
+  it wrote; non-empty output; replacing the payload by one of equal length changes neither the
+  length nor any byte outside those exclusions), every JUMBF serialisation whose length is
+  `base + |DataHash assertion| + |signature box|`, every signer that fills its reserve (C14),
+  every digest function, every positive chunk size of signer and verifier, every first-pass output
+  below 4 GiB (the `u32` progress counters then cannot overflow: `chunkCount_le_len`).
   The chain is the one of DESIGN §6: equal length (C14 `datahash_pad_exact`) ⇒ same Cai region
   ⇒ the verifier selects the same bytes as the signer hashed (C13 `excl_digest`) ⇒ the stored
   digest matches.
-* `split_laws` / `split_sign_then_verify_valid` — the prefix ++ framed manifest ++ suffix
-  container obeys the laws for every split, framing, definition size (`base`) and reserve, as
-  soon as the handler reports a non-empty region for the source (`0 < probe`);
-  `split_fits` is the CBOR-size argument (10 bytes of padding absorb the growth of the region
-  length).
-* `no_source_region_fails` — the flow really needs that: a handler reporting no region for the
-  source (first-pass DataHash without exclusions) makes the second pass outgrow the placeholder
-  (`JumbfCreationError`), for every handler, definition size and reserve.
-* `report_reflects_definition` — title, format (version-1 claims; a version ≥ 2 claim has no
-  `dc:format`) and the assertion list (labels up to the documented `c2pa.actions` →
-  `c2pa.actions.v2`, payloads, kinds, order) are copied, the hard binding is not reported.
+* `sign_ok_iff_fits` / `sign_fails_unless_fits` / `no_source_region_fails` — signing succeeds
+  *exactly when* the unpadded final DataHash is not longer than the placeholder with its 10 bytes
+  of padding; otherwise `JumbfCreationError` (e.g. a handler reporting no region for the source).
+* `split_laws` / `split_sign_then_verify_valid`, `splice_laws` / `splice_sign_then_verify_valid` —
+  two container handlers obey the laws for every framing, definition size (`base`) and reserve:
+  prefix ++ framed manifest ++ suffix with length-dependent prefix/suffix, and a handler that
+  *reads its asset* (cuts the reported region, writes the framed payload there; that the second
+  write replaces the first is a theorem). `split_fits`: 10 bytes of padding absorb the growth of
+  the region length. For real handlers the laws are checked by the harness on every data-hash
+  format (`handler_laws` in harness/src/bin/c03.rs).
+* `noembed_sign_then_verify_valid` — sidecar / remote manifests: the final DataHash has no
+  exclusions, stores the digest of the whole (unchanged) asset, and verifies.
+* `sign_then_state_valid` / `readBack_state` — composition with C01 (`bindData` on the signed
+  asset returns `matched`), C06 (signature codes) and C04 (`state`): Valid, or Trusted when the
+  signer chains to an anchor.
+* `report_reflects_definition`, `claim_store_spec`, `report_instances` — title, format (version-1
+  claims), the assertion list (labels up to `c2pa.actions…` → `c2pa.actions.v2`, payloads, kinds,
+  order), the number of ingredients and the thumbnail are reported as supplied, the hard binding
+  is not; instance numbers = earlier occurrences of the same label whenever no stored label is a
+  proper substring of another.
+* every headline theorem is instantiated on a concrete flow by a kernel-checked `example`
+  (section "non-vacuity").
 -/
 namespace C2pa.C03
 open C2pa
 
-/-! ### the main theorem -/
+/-! ### the second pass -/
 
-/-- **sign_then_verify_valid.** For every handler obeying `Laws`, every JUMBF serialisation with
-the length law, every signer filling its reserve, every digest function of the right length and
-every pair of chunk sizes: if the final DataHash fits the placeholder (`fits`: its unpadded CBOR
-is not longer than the placeholder's — see `split_fits` for why 10 bytes of padding suffice), the
-flow succeeds, the returned manifest store has exactly the placeholder's length, the final
-asset has the first-pass asset's length, and the verifier — hashing the *final* asset with the
-exclusions stored in the manifest — recomputes exactly the stored digest. -/
-theorem sign_then_verify_valid (E : Env) (alg : String) (src : Asset) (buf buf' n base : Nat)
+/-- What the second pass computes on the first-pass output, from input-level facts only: the
+handler laws, a supported algorithm, a positive chunk size and an output shorter than 4 GiB
+(`HashOK` is *derived*: `hashOK_of`). -/
+theorem second_pass (E : Env) (alg : String) (src : Asset) (buf n base : Nat)
     (hd : digestLen alg = some n) (hn : 0 < n)
     (hH : ∀ x, (E.H x).length = n)
     (hj : ∀ d s, (E.jumbf d s).length = base + d.size + s.length)
-    (hs : ∀ d, (E.sign d).length = E.sigPlaceholder.length)
     (laws : Laws E src (base + (placeholderDH alg src n).size + E.sigPlaceholder.length))
-    (hok : ∀ a : Asset, ∀ ex, finalExcl a = some ex →
-      a.bytes.length = (E.embed src (E.jumbf (placeholderDH alg src n) E.sigPlaceholder)).bytes.length →
-      HashOK alg a.bytes.length (ex.map toHR) buf ∧ HashOK alg a.bytes.length (ex.map toHR) buf')
-    (fits : ∀ ex, finalExcl (E.embed src (E.jumbf (placeholderDH alg src n) E.sigPlaceholder)) = some ex →
-      ({ excl := ex, algLen := alg.length, hash := List.replicate n 0, pad := 0, pad2 := none } : DHash).size
-        ≤ (placeholderDH alg src n).size) :
-    ∃ asset manifest dh, saveToStream E alg src buf = .ok asset manifest dh ∧
-      manifest.length = (E.jumbf (placeholderDH alg src n) E.sigPlaceholder).length ∧
-      asset.bytes.length =
-        (E.embed src (E.jumbf (placeholderDH alg src n) E.sigPlaceholder)).bytes.length ∧
-      dh.size = (placeholderDH alg src n).size ∧
-      verifyBinding E.H alg asset.bytes dh buf' = true := by
-  -- names
+    (hbuf : 0 < buf) (hsz : (firstOut E alg src n).bytes.length ≤ C13.u32Max) :
+    ∃ ex, finalExcl (firstOut E alg src n) = some ex ∧ ex ≠ [] ∧
+      (1 ≤ (firstOut E alg src n).bytes.length ∧
+        ∀ r ∈ ex, r.start + r.length ≤ (firstOut E alg src n).bytes.length) ∧
+      genDataHash E.H alg (firstOut E alg src n).bytes (firstOut E alg src n).locs true buf =
+        .ok (rawDH alg ex (E.H (C13.exclSpec (firstOut E alg src n).bytes (ex.map toHR)))) ∧
+      (rawDH alg ex (E.H (C13.exclSpec (firstOut E alg src n).bytes (ex.map toHR)))).size =
+        (rawDH alg ex (List.replicate n 0)).size := by
   let dh0 := placeholderDH alg src n
   let data0 := E.jumbf dh0 E.sigPlaceholder
   let out0 := E.embed src data0
   have hlen0 : data0.length = base + dh0.size + E.sigPlaceholder.length := hj _ _
   obtain ⟨ex, hex, hne, hwithin⟩ := laws.reported data0 hlen0
   have hexm : ex.map toHR ≠ [] := map_toHR_ne hne
-  obtain ⟨ok1, _⟩ := hok out0 ex hex rfl
+  have ok1 : HashOK alg out0.bytes.length (ex.map toHR) buf :=
+    hashOK_of hd _ ex buf hbuf hne (laws.nonempty data0 hlen0) hsz hwithin
   obtain ⟨prog, hhash⟩ := hash_excl alg out0.bytes (ex.map toHR) buf hexm ok1
-  -- second-pass DataHash
-  let h1 : DHash := { excl := ex, algLen := alg.length, hash := E.H (C13.exclSpec out0.bytes (ex.map toHR)),
-                      pad := 0, pad2 := none }
   have hHne : (E.H (C13.exclSpec out0.bytes (ex.map toHR))).isEmpty = false := by
     have := hH (C13.exclSpec out0.bytes (ex.map toHR))
     cases hx : E.H (C13.exclSpec out0.bytes (ex.map toHR)) with
     | nil => rw [hx] at this; simp at this; omega
     | cons a t => rfl
-  have hgen2 : genDataHash E.H alg out0.bytes out0.locs true buf = .ok h1 := by
-    unfold genDataHash
+  refine ⟨ex, hex, hne, ⟨laws.nonempty data0 hlen0, hwithin⟩, ?_, ?_⟩
+  · unfold genDataHash
     have hex' : exclusionsOf out0.bytes.length out0.locs true = some ex := hex
+    show (match exclusionsOf out0.bytes.length out0.locs true with
+      | none => Except.error Err.badParam
+      | some excl => _) = _
     simp only [hex', if_true]
     have hr : ({ excl := ex, algLen := alg.length, hash := [], pad := 0, pad2 := none } : DHash).ranges
         = some (ex.map toHR) := ranges_of_ne _ hne
     rw [hr, hhash]
-    simp [hHne, h1]
-  -- its size equals the all-zero-digest one (same digest length)
-  have hsz1 : h1.size =
-      ({ excl := ex, algLen := alg.length, hash := List.replicate n 0, pad := 0, pad2 := none } : DHash).size := by
-    unfold DHash.size DHash.c15
-    simp [h1, hH]
+    simp [hHne, rawDH]
+    rfl
+  · unfold DHash.size DHash.c15
+    simp [hH]
+
+/-- the `start_save_stream` result after the second pass, unfolded -/
+theorem startSave_unfold (E : Env) (alg : String) (src : Asset) (buf n : Nat)
+    (hd : digestLen alg = some n) (h1 : DHash)
+    (hgen2 : genDataHash E.H alg (firstOut E alg src n).bytes (firstOut E alg src n).locs true buf = .ok h1) :
+    startSave E alg src buf =
+      (match updateDataHash h1 (placeholderDH alg src n).size with
+        | .error e => .error e
+        | .ok dh1 =>
+          if (E.jumbf dh1 E.sigPlaceholder).length ≠ (E.jumbf (placeholderDH alg src n) E.sigPlaceholder).length
+          then .error .jumbfCreation
+          else .ok ⟨firstOut E alg src n, dh1, (E.jumbf (placeholderDH alg src n) E.sigPlaceholder).length⟩) := by
+  unfold startSave
+  rw [genDataHash_first E.H alg src buf n hd]
+  show (match genDataHash E.H alg (firstOut E alg src n).bytes (firstOut E alg src n).locs true buf with
+      | .error e => .error e
+      | .ok h1 => match updateDataHash h1 (placeholderDH alg src n).size with
+        | .error e => .error e
+        | .ok dh1 =>
+          if (E.jumbf dh1 E.sigPlaceholder).length ≠ (E.jumbf (placeholderDH alg src n) E.sigPlaceholder).length
+          then .error .jumbfCreation
+          else .ok ⟨firstOut E alg src n, dh1, (E.jumbf (placeholderDH alg src n) E.sigPlaceholder).length⟩
+        : Except Err Started) = _
+  rw [hgen2]
+
+/-! ### the main theorem -/
+
+/-- **sign_then_verify_core.** The flow succeeds; the final asset is the first-pass output with
+the *final* store embedded over the placeholder; the store has the placeholder's length; and the
+verifier, hashing the final asset with the stored exclusions, **absorbs exactly the byte string
+`pre` whose digest the manifest stores** (so the comparison succeeds for every digest function,
+collisions or not). `sign_then_verify_valid` is the digest-level corollary. -/
+theorem sign_then_verify_core (E : Env) (alg : String) (src : Asset) (buf buf' n base : Nat)
+    (hd : digestLen alg = some n) (hn : 0 < n)
+    (hH : ∀ x, (E.H x).length = n)
+    (hj : ∀ d s, (E.jumbf d s).length = base + d.size + s.length)
+    (hs : ∀ d, (E.sign d).length = E.sigPlaceholder.length)
+    (laws : Laws E src (base + (placeholderDH alg src n).size + E.sigPlaceholder.length))
+    (hbuf : 0 < buf) (hbuf' : 0 < buf')
+    (hsz : (firstOut E alg src n).bytes.length ≤ C13.u32Max)
+    (fits : ∀ ex, finalExcl (firstOut E alg src n) = some ex →
+      (rawDH alg ex (List.replicate n 0)).size ≤ (placeholderDH alg src n).size) :
+    ∃ manifest dh pre,
+      saveToStream E alg src buf = .ok (E.embed (firstOut E alg src n) manifest) manifest dh ∧
+      manifest.length = (E.jumbf (placeholderDH alg src n) E.sigPlaceholder).length ∧
+      (E.embed (firstOut E alg src n) manifest).bytes.length = (firstOut E alg src n).bytes.length ∧
+      dh.size = (placeholderDH alg src n).size ∧
+      finalExcl (firstOut E alg src n) = some dh.excl ∧ dh.excl ≠ [] ∧
+      dh.hash = E.H pre ∧
+      ∃ prog, C13.hashModel alg (E.embed (firstOut E alg src n) manifest).bytes dh.ranges true buf' none
+        = .ok pre prog := by
+  let dh0 := placeholderDH alg src n
+  let data0 := E.jumbf dh0 E.sigPlaceholder
+  let out0 := E.embed src data0
+  have hlen0 : data0.length = base + dh0.size + E.sigPlaceholder.length := hj _ _
+  obtain ⟨ex, hex, hne, ok1, hgen2, hsz1⟩ := second_pass E alg src buf n base hd hn hH hj laws hbuf hsz
+  have hexm : ex.map toHR ≠ [] := map_toHR_ne hne
+  let h1 : DHash := rawDH alg ex (E.H (C13.exclSpec out0.bytes (ex.map toHR)))
   have hle : C14.dhSize h1.c14 ≤ dh0.size := by
     rw [size_c14, hsz1]; exact fits ex hex
   obtain ⟨p, hp, hpsz, hprest⟩ := C14.datahash_pad_exact h1.c14 dh0.size rfl hle
@@ -108,91 +174,125 @@ theorem sign_then_verify_valid (E : Env) (alg : String) (src : Asset) (buf buf' 
   have hdata1 : (E.jumbf dh1 E.sigPlaceholder).length = data0.length := by
     rw [hj, hlen0, hdh1]
   have hstart : startSave E alg src buf = .ok ⟨out0, dh1, data0.length⟩ := by
-    unfold startSave
-    rw [genDataHash_first E.H alg src buf n hd]
-    show (match genDataHash E.H alg out0.bytes out0.locs true buf with
-      | .error e => .error e
-      | .ok h1 => match updateDataHash h1 dh0.size with
-        | .error e => .error e
-        | .ok dh1 =>
-          if (E.jumbf dh1 E.sigPlaceholder).length ≠ data0.length then .error .jumbfCreation
-          else .ok ⟨out0, dh1, data0.length⟩ : Except Err Started) = _
-    rw [hgen2]
-    simp only [hupd, hdata1, ne_eq, not_true_eq_false, if_false]
+    rw [startSave_unfold E alg src buf n hd h1 hgen2]
+    have hupd' : updateDataHash h1 (placeholderDH alg src n).size = .ok dh1 := hupd
+    have hdata1' : (E.jumbf dh1 E.sigPlaceholder).length =
+        (E.jumbf (placeholderDH alg src n) E.sigPlaceholder).length := hdata1
+    simp only [hupd', hdata1', ne_eq, not_true_eq_false, if_false]
+    rfl
   let final := E.jumbf dh1 (E.sign dh1)
   have hfinal : final.length = data0.length := by
     show (E.jumbf dh1 (E.sign dh1)).length = _
     rw [hj, hs, hlen0, hdh1]
-  refine ⟨E.embed out0 final, final, dh1, ?_, hfinal, ?_, hdh1, ?_⟩
+  obtain ⟨hl, hagree⟩ := laws.stable data0 final ex hlen0 (by rw [hfinal, hlen0]) hex
+  refine ⟨final, dh1, C13.exclSpec out0.bytes (ex.map toHR), ?_, hfinal, hl, hdh1, hex, hne, rfl, ?_⟩
   · unfold saveToStream
     rw [hstart]
-  · exact (laws.stable data0 final ex hlen0 (by rw [hfinal, hlen0]) hex).1
-  · obtain ⟨hl, hagree⟩ := laws.stable data0 final ex hlen0 (by rw [hfinal, hlen0]) hex
-    have hfe : finalExcl (E.embed out0 final) = finalExcl (E.embed out0 final) := rfl
-    -- the verifier hashes the final asset with the stored exclusions
+  · -- the verifier hashes the final asset with the stored exclusions
     have ok2 : HashOK alg (E.embed out0 final).bytes.length (ex.map toHR) buf' := by
-      rw [hl]; exact (hok out0 ex hex rfl).2
+      rw [hl]
+      exact hashOK_of hd _ ex buf' hbuf' hne ok1.1 hsz ok1.2
     obtain ⟨prog2, hhash2⟩ := hash_excl alg (E.embed out0 final).bytes (ex.map toHR) buf' hexm ok2
-    unfold verifyBinding
     have hr : dh1.ranges = some (ex.map toHR) := ranges_of_ne dh1 hne
-    rw [hr, hhash2]
     have : C13.exclSpec (E.embed out0 final).bytes (ex.map toHR) = C13.exclSpec out0.bytes (ex.map toHR) :=
       exclSpec_congr _ _ _ hl hagree
-    simp [this, dh1, h1]
+    refine ⟨prog2, ?_⟩
+    rw [hr, ← this]
+    exact hhash2
 
-/-- **sign_then_verify_valid for every container split**: any prefix/suffix (which may depend on
-the payload length), any framing whose length depends on the payload length only, any source
-bytes with a non-empty reported region whose start has (up to 2 bytes) the CBOR head size of the
-start of the written region (`hat`; equal starts in every real handler), any definition size `base`, any reserve
-(`sigPlaceholder`), any digest, any chunk sizes. -/
-theorem split_sign_then_verify_valid (s : Split) (bytes : List UInt8) (at_ probe : Nat)
-    (alg : String) (buf buf' n base : Nat) (jm : DHash → List UInt8 → List UInt8)
-    (H : List UInt8 → List UInt8) (sg : DHash → List UInt8) (ph : List UInt8)
-    (hprobe : 0 < probe) (hd : digestLen alg = some n) (hn : 0 < n)
-    (hH : ∀ x, (H x).length = n)
-    (hj : ∀ d σ, (jm d σ).length = base + d.size + σ.length)
-    (hs : ∀ d, (sg d).length = ph.length)
-    (hw : ∀ j, 0 < (s.wrap j).length)
-    (hwl : ∀ j j', j.length = j'.length → (s.wrap j').length = (s.wrap j).length)
-    (hat : ∀ m, C15.hdr (s.pre m).length ≤ C15.hdr at_ + 2)
-    (hok : ∀ a : Asset, ∀ ex, finalExcl a = some ex →
-      HashOK alg a.bytes.length (ex.map toHR) buf ∧ HashOK alg a.bytes.length (ex.map toHR) buf') :
-    ∃ asset manifest dh,
-      saveToStream ⟨s.embed, jm, H, sg, ph⟩ alg (Split.source bytes at_ probe) buf = .ok asset manifest dh ∧
-      verifyBinding H alg asset.bytes dh buf' = true := by
-  let E : Env := ⟨s.embed, jm, H, sg, ph⟩
-  let src := Split.source bytes at_ probe
-  have hph : placeholderDH alg src n =
-      { excl := [⟨at_, probe⟩], algLen := alg.length, hash := List.replicate n 0, pad := 10, pad2 := none } := by
-    unfold placeholderDH
-    rw [split_source_excl bytes at_ probe hprobe]
-    rfl
-  have laws : Laws E src (base + (placeholderDH alg src n).size + E.sigPlaceholder.length) :=
-    split_laws (jm := jm) (H := H) (sg := sg) (ph := ph) s src _ (fun j _ => hw j)
-      (fun j j' h h' => hwl j j' (by rw [h, h']))
-  obtain ⟨asset, manifest, dh, h1, _, _, _, h5⟩ :=
-    sign_then_verify_valid E alg src buf buf' n base hd hn hH hj hs laws
-      (fun a ex h _ => hok a ex h)
-      (by
-        intro ex hex
-        have hfe := split_finalExcl s src (jm (placeholderDH alg src n) ph) (hw _)
-        have hex2 : finalExcl (s.embed src (jm (placeholderDH alg src n) ph)) = some ex := hex
-        rw [hfe] at hex2
-        injection hex2 with hex2
-        rw [← hex2, hph]
-        have := split_fits alg.length n at_ (s.pre (jm (placeholderDH alg src n) ph).length).length probe
-          (s.wrap (jm (placeholderDH alg src n) ph)).length (hat _)
-        rw [← hph] at this
-        rw [← hph]
-        exact this)
-  exact ⟨asset, manifest, dh, h1, h5⟩
+/-- **sign_then_verify_valid.** For every handler obeying `Laws`, every JUMBF serialisation with
+the length law, every signer filling its reserve, every digest function of the right length,
+every pair of positive chunk sizes and every first-pass output shorter than 4 GiB: if the final
+DataHash fits the placeholder (`fits`: its unpadded CBOR is not longer than the placeholder's —
+see `split_fits` for why 10 bytes of padding suffice, and `sign_ok_iff_fits` for the converse),
+the flow succeeds, the returned manifest store has exactly the placeholder's length, the final
+asset has the first-pass asset's length, and the verifier — hashing the *final* asset with the
+exclusions stored in the manifest — recomputes exactly the stored digest.
 
-/-! ### the flow needs a region for the source -/
+All hypotheses are about the inputs (`E`'s functions, the source, the chunk sizes); the hasher's
+preconditions are derived (`hashOK_of`). -/
+theorem sign_then_verify_valid (E : Env) (alg : String) (src : Asset) (buf buf' n base : Nat)
+    (hd : digestLen alg = some n) (hn : 0 < n)
+    (hH : ∀ x, (E.H x).length = n)
+    (hj : ∀ d s, (E.jumbf d s).length = base + d.size + s.length)
+    (hs : ∀ d, (E.sign d).length = E.sigPlaceholder.length)
+    (laws : Laws E src (base + (placeholderDH alg src n).size + E.sigPlaceholder.length))
+    (hbuf : 0 < buf) (hbuf' : 0 < buf')
+    (hsz : (firstOut E alg src n).bytes.length ≤ C13.u32Max)
+    (fits : ∀ ex, finalExcl (firstOut E alg src n) = some ex →
+      (rawDH alg ex (List.replicate n 0)).size ≤ (placeholderDH alg src n).size) :
+    ∃ asset manifest dh, saveToStream E alg src buf = .ok asset manifest dh ∧
+      manifest.length = (E.jumbf (placeholderDH alg src n) E.sigPlaceholder).length ∧
+      asset.bytes.length = (firstOut E alg src n).bytes.length ∧
+      dh.size = (placeholderDH alg src n).size ∧
+      verifyBinding E.H alg asset.bytes dh buf' = true := by
+  obtain ⟨manifest, dh, pre, h1, h2, h3, h4, _, _, h7, prog, h8⟩ :=
+    sign_then_verify_core E alg src buf buf' n base hd hn hH hj hs laws hbuf hbuf' hsz fits
+  refine ⟨_, manifest, dh, h1, h2, h3, h4, ?_⟩
+  unfold verifyBinding
+  rw [h8, h7]
+  simp
+
+/-! ### the fit condition is necessary -/
 
 theorem padToSize_too_big (d : C14.DH) (want : Nat) (h : C14.dhSize d > want) :
     C14.padToSize d want = .err := by
   unfold C14.padToSize C14.padToSizeF
   simp [h]
+
+/-- **sign_fails_unless_fits.** If the unpadded final DataHash is longer than the placeholder
+(with its 10 bytes of padding), the flow ends in `JumbfCreationError` — whatever the handler,
+definition size and reserve. -/
+theorem sign_fails_unless_fits (E : Env) (alg : String) (src : Asset) (buf n base : Nat)
+    (hd : digestLen alg = some n) (hn : 0 < n)
+    (hH : ∀ x, (E.H x).length = n)
+    (hj : ∀ d s, (E.jumbf d s).length = base + d.size + s.length)
+    (laws : Laws E src (base + (placeholderDH alg src n).size + E.sigPlaceholder.length))
+    (hbuf : 0 < buf) (hsz : (firstOut E alg src n).bytes.length ≤ C13.u32Max)
+    (nofit : ∀ ex, finalExcl (firstOut E alg src n) = some ex →
+      (placeholderDH alg src n).size < (rawDH alg ex (List.replicate n 0)).size) :
+    saveToStream E alg src buf = .err .jumbfCreation := by
+  obtain ⟨ex, hex, hne, ok1, hgen2, hsz1⟩ := second_pass E alg src buf n base hd hn hH hj laws hbuf hsz
+  have hbig : C14.dhSize
+      (rawDH alg ex (E.H (C13.exclSpec (firstOut E alg src n).bytes (ex.map toHR)))).c14 >
+        (placeholderDH alg src n).size := by
+    rw [size_c14, hsz1]; exact nofit ex hex
+  have hupd : updateDataHash
+      (rawDH alg ex (E.H (C13.exclSpec (firstOut E alg src n).bytes (ex.map toHR))))
+      (placeholderDH alg src n).size = .error .jumbfCreation := by
+    unfold updateDataHash
+    rw [padToSize_too_big _ _ hbig]
+  unfold saveToStream
+  rw [startSave_unfold E alg src buf n hd _ hgen2]
+  simp only [hupd]
+
+/-- **sign_ok_iff_fits.** Under the input-level hypotheses of `sign_then_verify_valid`, signing
+succeeds *exactly when* the unpadded final DataHash is not longer than the placeholder. -/
+theorem sign_ok_iff_fits (E : Env) (alg : String) (src : Asset) (buf n base : Nat)
+    (hd : digestLen alg = some n) (hn : 0 < n)
+    (hH : ∀ x, (E.H x).length = n)
+    (hj : ∀ d s, (E.jumbf d s).length = base + d.size + s.length)
+    (hs : ∀ d, (E.sign d).length = E.sigPlaceholder.length)
+    (laws : Laws E src (base + (placeholderDH alg src n).size + E.sigPlaceholder.length))
+    (hbuf : 0 < buf) (hsz : (firstOut E alg src n).bytes.length ≤ C13.u32Max) :
+    (∃ asset manifest dh, saveToStream E alg src buf = .ok asset manifest dh) ↔
+      (∀ ex, finalExcl (firstOut E alg src n) = some ex →
+        (rawDH alg ex (List.replicate n 0)).size ≤ (placeholderDH alg src n).size) := by
+  constructor
+  · rintro ⟨a, m, dh, hok⟩ ex hex
+    rcases Nat.lt_or_ge (placeholderDH alg src n).size (rawDH alg ex (List.replicate n 0)).size with h | h
+    · have := sign_fails_unless_fits E alg src buf n base hd hn hH hj laws hbuf hsz (by
+        intro ex' hex'
+        rw [hex] at hex'
+        cases hex'
+        exact h)
+      rw [this] at hok
+      cases hok
+    · exact h
+  · intro fits
+    obtain ⟨a, m, dh, h, _⟩ :=
+      sign_then_verify_valid E alg src buf buf n base hd hn hH hj hs laws hbuf hbuf hsz fits
+    exact ⟨a, m, dh, h⟩
 
 /-- **no_source_region_fails.** If the handler reports no exclusion for the source (so the
 placeholder DataHash has no `exclusions` member at all) while the asset it writes has one, the
@@ -204,135 +304,567 @@ theorem no_source_region_fails (E : Env) (alg : String) (src : Asset) (buf n bas
     (hj : ∀ d s, (E.jumbf d s).length = base + d.size + s.length)
     (hsrc : exclusionsOf src.bytes.length src.locs false = some [])
     (laws : Laws E src (base + (placeholderDH alg src n).size + E.sigPlaceholder.length))
-    (hok : ∀ ex, finalExcl (E.embed src (E.jumbf (placeholderDH alg src n) E.sigPlaceholder)) = some ex →
-      HashOK alg (E.embed src (E.jumbf (placeholderDH alg src n) E.sigPlaceholder)).bytes.length
-        (ex.map toHR) buf) :
+    (hbuf : 0 < buf) (hsz : (firstOut E alg src n).bytes.length ≤ C13.u32Max) :
     saveToStream E alg src buf = .err .jumbfCreation := by
-  let dh0 := placeholderDH alg src n
-  let data0 := E.jumbf dh0 E.sigPlaceholder
-  let out0 := E.embed src data0
-  have hlen0 : data0.length = base + dh0.size + E.sigPlaceholder.length := hj _ _
-  obtain ⟨ex, hex, hne, _⟩ := laws.reported data0 hlen0
-  have hexm : ex.map toHR ≠ [] := map_toHR_ne hne
-  obtain ⟨prog, hhash⟩ := hash_excl alg out0.bytes (ex.map toHR) buf hexm (hok ex hex)
-  let h1 : DHash := { excl := ex, algLen := alg.length, hash := E.H (C13.exclSpec out0.bytes (ex.map toHR)),
-                      pad := 0, pad2 := none }
-  have hHne : (E.H (C13.exclSpec out0.bytes (ex.map toHR))).isEmpty = false := by
-    have := hH (C13.exclSpec out0.bytes (ex.map toHR))
-    cases hx : E.H (C13.exclSpec out0.bytes (ex.map toHR)) with
+  apply sign_fails_unless_fits E alg src buf n base hd hn hH hj laws hbuf hsz
+  intro ex hex
+  have hne : ex ≠ [] := by
+    obtain ⟨ex', hex', hne', _⟩ := laws.reported (E.jumbf (placeholderDH alg src n) E.sigPlaceholder) (hj _ _)
+    have : finalExcl (firstOut E alg src n) = some ex' := hex'
+    rw [hex] at this
+    cases this
+    exact hne'
+  have hdh0 : placeholderDH alg src n =
+      { excl := [], algLen := alg.length, hash := List.replicate n 0, pad := 10, pad2 := none } := by
+    unfold placeholderDH
+    rw [hsrc]; rfl
+  rw [hdh0]
+  unfold DHash.size DHash.c15 C15.dhSize
+  cases ex with
+  | nil => exact absurd rfl hne
+  | cons r rs =>
+    simp only [List.isEmpty_nil, List.isEmpty_cons, if_true, Bool.false_eq_true, if_false,
+      C15.exclSize, C15.optField, C15.str, List.length_replicate, List.map_cons, List.sum_cons,
+      C15.rangeSize]
+    have h1' := C15.hdr_pos (List.length (r :: rs))
+    have h2' := C15.hdr_pos r.start
+    have h3' := C15.hdr_pos r.length
+    have h4 : C15.hdr 10 = 1 := by decide
+    have h5 : C15.hdr 0 = 1 := by decide
+    omega
+
+/-! ### the prefix ++ framed manifest ++ suffix container -/
+
+/-- the `fits` (and single-exclusion) hypotheses hold for every container split -/
+theorem split_fits_hyp (s : Split) (bytes : List UInt8) (at_ probe : Nat)
+    (alg : String) (n : Nat) (jm : DHash → List UInt8 → List UInt8)
+    (H : List UInt8 → List UInt8) (sg : DHash → List UInt8) (ph : List UInt8)
+    (hprobe : 0 < probe) (hw : ∀ j, 0 < (s.wrap j).length)
+    (hat : ∀ m, C15.hdr (s.pre m).length ≤ C15.hdr at_ + 2) :
+    ∀ ex, finalExcl (firstOut ⟨s.embed, jm, H, sg, ph⟩ alg (Split.source bytes at_ probe) n) = some ex →
+      (rawDH alg ex (List.replicate n 0)).size ≤ (placeholderDH alg (Split.source bytes at_ probe) n).size ∧
+      ex.length ≤ 1 := by
+  let src := Split.source bytes at_ probe
+  have hph : placeholderDH alg src n =
+      { excl := [⟨at_, probe⟩], algLen := alg.length, hash := List.replicate n 0, pad := 10, pad2 := none } := by
+    unfold placeholderDH
+    rw [split_source_excl bytes at_ probe hprobe]
+    rfl
+  intro ex hex
+  have hfe := split_finalExcl s src (jm (placeholderDH alg src n) ph) (hw _)
+  have hex2 : finalExcl (s.embed src (jm (placeholderDH alg src n) ph)) = some ex := hex
+  rw [hfe] at hex2
+  injection hex2 with hex2
+  refine ⟨?_, by rw [← hex2]; exact Nat.le_refl 1⟩
+  rw [← hex2]
+  show _ ≤ (placeholderDH alg src n).size
+  rw [hph]
+  have := split_fits alg.length n at_ (s.pre (jm (placeholderDH alg src n) ph).length).length probe
+    (s.wrap (jm (placeholderDH alg src n) ph)).length (hat _)
+  rw [← hph] at this
+  rw [← hph]
+  exact this
+
+/-- **sign_then_verify_valid for every container split**: any prefix/suffix (which may depend on
+the payload length), any framing whose length depends on the payload length only, any source
+bytes with a non-empty reported region whose start has (up to 2 bytes) the CBOR head size of the
+start of the written region (`hat`; equal starts in every real handler), any definition size
+`base`, any reserve (`ph`), any digest, any positive chunk sizes, any output below 4 GiB. -/
+theorem split_sign_then_verify_valid (s : Split) (bytes : List UInt8) (at_ probe : Nat)
+    (alg : String) (buf buf' n base : Nat) (jm : DHash → List UInt8 → List UInt8)
+    (H : List UInt8 → List UInt8) (sg : DHash → List UInt8) (ph : List UInt8)
+    (hprobe : 0 < probe) (hd : digestLen alg = some n) (hn : 0 < n)
+    (hH : ∀ x, (H x).length = n)
+    (hj : ∀ d σ, (jm d σ).length = base + d.size + σ.length)
+    (hs : ∀ d, (sg d).length = ph.length)
+    (hw : ∀ j, 0 < (s.wrap j).length)
+    (hwl : ∀ j j', j.length = j'.length → (s.wrap j').length = (s.wrap j).length)
+    (hat : ∀ m, C15.hdr (s.pre m).length ≤ C15.hdr at_ + 2)
+    (hbuf : 0 < buf) (hbuf' : 0 < buf')
+    (hsz : (firstOut ⟨s.embed, jm, H, sg, ph⟩ alg (Split.source bytes at_ probe) n).bytes.length ≤ C13.u32Max) :
+    ∃ asset manifest dh,
+      saveToStream ⟨s.embed, jm, H, sg, ph⟩ alg (Split.source bytes at_ probe) buf = .ok asset manifest dh ∧
+      verifyBinding H alg asset.bytes dh buf' = true := by
+  let E : Env := ⟨s.embed, jm, H, sg, ph⟩
+  let src := Split.source bytes at_ probe
+  have laws : Laws E src (base + (placeholderDH alg src n).size + E.sigPlaceholder.length) :=
+    split_laws (jm := jm) (H := H) (sg := sg) (ph := ph) s src _ (fun j _ => hw j)
+      (fun j j' h h' => hwl j j' (by rw [h, h']))
+  obtain ⟨asset, manifest, dh, h1, _, _, _, h5⟩ :=
+    sign_then_verify_valid E alg src buf buf' n base hd hn hH hj hs laws hbuf hbuf' hsz
+      (fun ex hex => (split_fits_hyp s bytes at_ probe alg n jm H sg ph hprobe hw hat ex hex).1)
+  exact ⟨asset, manifest, dh, h1, h5⟩
+
+/-! ### a handler that reads the asset it is given -/
+
+/-- **splice_sign_then_verify_valid.** The same for the splice handler — `Splice.embed` *reads*
+the asset it is handed: it cuts the region the asset reports and writes the framed payload in
+its place; that the second write replaces the first is proved (`splice_embed_embed`), not built
+in. For every source whose reported region `[at_, at_+probe)` starts inside it: signing succeeds,
+the binding verifies, and the signed asset is the source with its region replaced by the framed
+*final* manifest store. -/
+theorem splice_sign_then_verify_valid (s : Splice) (bytes : List UInt8) (at_ probe : Nat)
+    (alg : String) (buf buf' n base : Nat) (jm : DHash → List UInt8 → List UInt8)
+    (H : List UInt8 → List UInt8) (sg : DHash → List UInt8) (ph : List UInt8)
+    (hprobe : 0 < probe) (hin : at_ ≤ bytes.length) (hd : digestLen alg = some n) (hn : 0 < n)
+    (hH : ∀ x, (H x).length = n)
+    (hj : ∀ d σ, (jm d σ).length = base + d.size + σ.length)
+    (hs : ∀ d, (sg d).length = ph.length)
+    (hw : ∀ j, 0 < (s.wrap j).length)
+    (hwl : ∀ j j', j.length = j'.length → (s.wrap j').length = (s.wrap j).length)
+    (hbuf : 0 < buf) (hbuf' : 0 < buf')
+    (hsz : (firstOut ⟨s.embed, jm, H, sg, ph⟩ alg (Split.source bytes at_ probe) n).bytes.length ≤ C13.u32Max) :
+    ∃ asset manifest dh,
+      saveToStream ⟨s.embed, jm, H, sg, ph⟩ alg (Split.source bytes at_ probe) buf = .ok asset manifest dh ∧
+      verifyBinding H alg asset.bytes dh buf' = true ∧
+      asset.bytes = bytes.take at_ ++ s.wrap manifest ++ bytes.drop (at_ + probe) := by
+  let E : Env := ⟨s.embed, jm, H, sg, ph⟩
+  let src := Split.source bytes at_ probe
+  have hreg : s.region src = (at_, probe) := splice_source_region s bytes at_ probe
+  have ho : (s.region src).1 ≤ src.bytes.length := by rw [hreg]; exact hin
+  have hph : placeholderDH alg src n =
+      { excl := [⟨at_, probe⟩], algLen := alg.length, hash := List.replicate n 0, pad := 10, pad2 := none } := by
+    unfold placeholderDH
+    rw [split_source_excl bytes at_ probe hprobe]
+    rfl
+  have laws : Laws E src (base + (placeholderDH alg src n).size + E.sigPlaceholder.length) :=
+    splice_laws (jm := jm) (H := H) (sg := sg) (ph := ph) s src _ ho (fun j _ => hw j)
+      (fun j j' h h' => hwl j j' (by rw [h, h']))
+  obtain ⟨manifest, dh, pre, h1, _, _, _, _, _, h7, prog, h8⟩ :=
+    sign_then_verify_core E alg src buf buf' n base hd hn hH hj hs laws hbuf hbuf' hsz
+      (by
+        intro ex hex
+        have hfe := splice_finalExcl s src (jm (placeholderDH alg src n) ph) (hw _) ho
+        have hex2 : finalExcl (s.embed src (jm (placeholderDH alg src n) ph)) = some ex := hex
+        rw [hfe, hreg] at hex2
+        injection hex2 with hex2
+        rw [← hex2, hph]
+        exact split_fits alg.length n at_ at_ probe _ (by omega))
+  refine ⟨_, manifest, dh, h1, ?_, ?_⟩
+  · unfold verifyBinding
+    rw [h8, h7]
+    exact beq_self_eq_true (H pre)
+  · have := splice_embed_embed s src (jm (placeholderDH alg src n) ph) manifest ho
+    rw [hreg] at this
+    exact this
+
+/-! ### sidecar / remote manifests -/
+
+/-- **noembed_sign_then_verify_valid.** `RemoteManifest::SideCar` / `Remote(url)`: for every
+intermediate asset (source without a store, plus the XMP reference for `Remote`) whose handler
+reports no `OtherExclusion` location, whatever `Cai` placeholder it reports: signing succeeds,
+the output is the intermediate asset unchanged, the store has the placeholder's length, the
+final DataHash has **no exclusions** and stores the digest of the whole asset, and the verifier
+recomputes it. -/
+theorem noembed_sign_then_verify_valid (E : Env) (alg : String) (inter : Asset)
+    (buf buf' n base : Nat)
+    (hd : digestLen alg = some n) (hn : 0 < n)
+    (hH : ∀ x, (E.H x).length = n)
+    (hj : ∀ d s, (E.jumbf d s).length = base + d.size + s.length)
+    (hs : ∀ d, (E.sign d).length = E.sigPlaceholder.length)
+    (hno : ∀ l ∈ inter.locs, l.kind ≠ .otherExcl)
+    (h1 : 1 ≤ inter.bytes.length) (hsz : inter.bytes.length ≤ C13.u32Max)
+    (hbuf : 0 < buf) (hbuf' : 0 < buf') :
+    ∃ manifest dh, saveNoEmbed E alg inter buf = .ok inter manifest dh ∧
+      manifest.length = (E.jumbf (placeholderDH alg inter n) E.sigPlaceholder).length ∧
+      dh.excl = [] ∧ dh.hash = E.H inter.bytes ∧
+      verifyBinding E.H alg inter.bytes dh buf' = true := by
+  let dh0 := placeholderDH alg inter n
+  have halg := supported_of_digestLen hd
+  obtain ⟨prog, hhash⟩ := hash_whole alg inter.bytes buf halg h1 hsz hbuf
+  obtain ⟨prog', hhash'⟩ := hash_whole alg inter.bytes buf' halg h1 hsz hbuf'
+  let h1' : DHash := rawDH alg [] (E.H inter.bytes)
+  have hHne : (E.H inter.bytes).isEmpty = false := by
+    have := hH inter.bytes
+    cases hx : E.H inter.bytes with
     | nil => rw [hx] at this; simp at this; omega
     | cons a t => rfl
-  have hgen2 : genDataHash E.H alg out0.bytes out0.locs true buf = .ok h1 := by
+  have hgen2 : genDataHash E.H alg inter.bytes (zeroLocs inter.locs) true buf = .ok h1' := by
     unfold genDataHash
-    have hex' : exclusionsOf out0.bytes.length out0.locs true = some ex := hex
-    simp only [hex', if_true]
-    have hr : ({ excl := ex, algLen := alg.length, hash := [], pad := 0, pad2 := none } : DHash).ranges
-        = some (ex.map toHR) := ranges_of_ne _ hne
+    rw [exclusionsOf_zero _ _ hno]
+    simp only [if_true]
+    have hr : ({ excl := [], algLen := alg.length, hash := [], pad := 0, pad2 := none } : DHash).ranges = none := rfl
     rw [hr, hhash]
-    simp [hHne, h1]
-  -- sizes: the final one has an `exclusions` member, the placeholder none
-  have hbig : C14.dhSize h1.c14 > dh0.size := by
+    simp [hHne, h1', rawDH]
+  have hle : C14.dhSize h1'.c14 ≤ dh0.size := by
     rw [size_c14]
-    show dh0.size < h1.size
-    have hdh0 : dh0 = { excl := [], algLen := alg.length, hash := List.replicate n 0, pad := 10, pad2 := none } := by
-      show placeholderDH alg src n = _
-      unfold placeholderDH
-      rw [hsrc]; rfl
-    rw [hdh0]
-    unfold DHash.size DHash.c15 C15.dhSize
-    cases ex with
-    | nil => exact absurd rfl hne
-    | cons r rs =>
-      simp only [h1, List.isEmpty_nil, List.isEmpty_cons, if_true, Bool.false_eq_true, if_false,
-        C15.exclSize, C15.optField, C15.str, List.length_replicate, hH, List.map_cons, List.sum_cons,
-        C15.rangeSize]
-      have h1' := C15.hdr_pos (List.length (r :: rs))
-      have h2' := C15.hdr_pos r.start
-      have h3' := C15.hdr_pos r.length
-      have h4 : C15.hdr 10 = 1 := by decide
-      have h5 : C15.hdr 0 = 1 := by decide
-      omega
-  have hupd : updateDataHash h1 dh0.size = .error .jumbfCreation := by
+    show (rawDH alg [] (E.H inter.bytes)).size ≤ (placeholderDH alg inter n).size
+    unfold DHash.size DHash.c15 C15.dhSize placeholderDH
+    simp only [rawDH, List.isEmpty_nil, if_true, C15.optField, C15.str, hH, List.length_replicate]
+    have h4 : C15.hdr 10 = 1 := by decide
+    have h5 : C15.hdr 0 = 1 := by decide
+    split <;> omega
+  obtain ⟨p, hp, hpsz, hprest⟩ := C14.datahash_pad_exact h1'.c14 dh0.size rfl hle
+  let dh1 : DHash := { h1' with pad := p.pad, pad2 := p.pad2 }
+  have hupd : updateDataHash h1' dh0.size = .ok dh1 := by
     unfold updateDataHash
-    rw [padToSize_too_big _ _ hbig]
-  unfold saveToStream startSave
-  rw [genDataHash_first E.H alg src buf n hd]
-  show (match (match genDataHash E.H alg out0.bytes out0.locs true buf with
+    rw [hp]
+  have hdh1 : dh1.size = dh0.size := by
+    rw [← size_c14]
+    have : dh1.c14 = p := by
+      show (⟨dh1.rest, p.pad, p.pad2⟩ : C14.DH) = p
+      have : dh1.rest = p.rest := by rw [hprest]; rfl
+      rw [this]
+    rw [this, hpsz]
+  have hstart : startSaveNoEmbed E alg inter buf =
+      .ok ⟨inter, dh1, (E.jumbf dh0 E.sigPlaceholder).length⟩ := by
+    unfold startSaveNoEmbed
+    rw [genDataHash_first E.H alg inter buf n hd]
+    show (match genDataHash E.H alg inter.bytes (zeroLocs inter.locs) true buf with
       | .error e => .error e
       | .ok h1 => match updateDataHash h1 dh0.size with
         | .error e => .error e
         | .ok dh1 =>
-          if (E.jumbf dh1 E.sigPlaceholder).length ≠ data0.length then .error .jumbfCreation
-          else .ok ⟨out0, dh1, data0.length⟩ : Except Err Started) with
-    | .error e => Res.err e
-    | .ok st => Res.ok (E.embed st.out0 (E.jumbf st.dh (E.sign st.dh))) (E.jumbf st.dh (E.sign st.dh)) st.dh) = _
-  rw [hgen2]
-  simp only [hupd]
+          if (E.jumbf dh1 E.sigPlaceholder).length ≠ (E.jumbf dh0 E.sigPlaceholder).length
+          then .error .jumbfCreation
+          else .ok ⟨inter, dh1, (E.jumbf dh0 E.sigPlaceholder).length⟩ : Except Err Started) = _
+    rw [hgen2]
+    have : (E.jumbf dh1 E.sigPlaceholder).length = (E.jumbf dh0 E.sigPlaceholder).length := by
+      rw [hj, hj, hdh1]
+    simp only [hupd, this, ne_eq, not_true_eq_false, if_false]
+  refine ⟨E.jumbf dh1 (E.sign dh1), dh1, ?_, ?_, rfl, rfl, ?_⟩
+  · unfold saveNoEmbed
+    rw [hstart]
+  · rw [hj, hj, hs, hdh1]
+  · unfold verifyBinding
+    have hr : dh1.ranges = none := rfl
+    rw [hr, hhash']
+    exact beq_self_eq_true _
 
-/-! ### non-vacuity -/
+/-! ### reading back: binding verdict (C01) and validation state (C04/C06) -/
+
+theorem foldl_addStatus_success (codes : List C04.Code) (c : C04.Codes) :
+    (codes.map fun k => (⟨k, .success, none⟩ : C04.Status)).foldl C04.addStatus
+        { active := some c, deltas := none } =
+      { active := some { c with success := c.success ++ codes }, deltas := none } := by
+  induction codes generalizing c with
+  | nil => simp
+  | cons k t ih =>
+    simp only [List.map_cons, List.foldl_cons]
+    have : C04.addStatus { active := some c, deltas := none } ⟨k, .success, none⟩ =
+        { active := some { c with success := c.success ++ [k] }, deltas := none } := rfl
+    rw [this, ih]
+    simp
+
+/-- **readBack_state.** A store whose claim signature validates, whose assertions all match
+their hashed URIs and whose data-hash binding matches (without additional exclusions) reads back
+as `Trusted` when the signer chains to a configured anchor and `Valid` otherwise — the state is
+C04's `state` applied to the codes C06's signature step and the binding step log. -/
+theorem readBack_state (trust : C06.Trust) (k : Nat) :
+    (readBack trust true (List.replicate k true) (.matched false)).map C04.state =
+      some (match trust with | .trusted => .trusted | .untrusted => .valid) := by
+  unfold readBack bindingStatuses
+  simp only [Bool.false_eq_true, if_false, List.nil_append, List.map_replicate, if_true, Option.map_some]
+  have : (List.replicate k (⟨cUriMatch, .success, none⟩ : C04.Status) ++ [⟨cDataMatch, .success, none⟩]) =
+      (List.replicate k cUriMatch ++ [cDataMatch]).map fun c => (⟨c, .success, none⟩ : C04.Status) := by
+    simp
+  rw [this]
+  unfold C06.resultsOf
+  rw [foldl_addStatus_success]
+  cases trust
+  · simp only [C04.state, C04.isTrusted, C04.isValid, C04.deltasOf, C04.failuresTolerated,
+      C06.signatureCodes, C06.trustCodes, C06.profileFailure, List.any_append, List.any_replicate]
+    have e1 : (cUriMatch == C04.cTrusted) = false := by decide
+    have e2 : (cUriMatch == C04.cSigValidated) = false := by decide
+    have e3 : (cUriMatch == C04.cInsideValidity) = false := by decide
+    simp only [e1, e2, e3, ite_self]
+    decide
+  · simp only [C04.state, C04.isTrusted, C04.isValid, C04.deltasOf, C04.failuresTolerated,
+      C06.signatureCodes, C06.trustCodes, C06.profileFailure, List.any_append, List.any_replicate]
+    have e1 : (cUriMatch == C04.cTrusted) = false := by decide
+    have e2 : (cUriMatch == C04.cSigValidated) = false := by decide
+    have e3 : (cUriMatch == C04.cInsideValidity) = false := by decide
+    simp only [e1, e2, e3, ite_self]
+    decide
+
+/-- **sign_then_state_valid.** Composition with the verifier models of C01 (binding), C06
+(signature codes) and C04 (state): under the hypotheses of `sign_then_verify_valid`, for a
+handler reporting a single exclusion, C01's `bindData` on the *signed asset* with the *stored*
+exclusions and the stored digest's preimage returns `matched` (no additional exclusions), and a
+read-back whose signature validates and whose `k` hashed URIs match is `Trusted` / `Valid`
+according to the trust verdict. -/
+theorem sign_then_state_valid (E : Env) (alg : String) (src : Asset) (buf buf' n base : Nat)
+    (hd : digestLen alg = some n) (hn : 0 < n)
+    (hH : ∀ x, (E.H x).length = n)
+    (hj : ∀ d s, (E.jumbf d s).length = base + d.size + s.length)
+    (hs : ∀ d, (E.sign d).length = E.sigPlaceholder.length)
+    (laws : Laws E src (base + (placeholderDH alg src n).size + E.sigPlaceholder.length))
+    (hbuf : 0 < buf) (hbuf' : 0 < buf')
+    (hsz : (firstOut E alg src n).bytes.length ≤ C13.u32Max)
+    (fits : ∀ ex, finalExcl (firstOut E alg src n) = some ex →
+      (rawDH alg ex (List.replicate n 0)).size ≤ (placeholderDH alg src n).size)
+    (hone : ∀ ex, finalExcl (firstOut E alg src n) = some ex → ex.length ≤ 1)
+    (trust : C06.Trust) (k : Nat) :
+    ∃ asset manifest dh pre, saveToStream E alg src buf = .ok asset manifest dh ∧
+      dh.hash = E.H pre ∧
+      C01.bindData ⟨false, none, dh.ranges, pre⟩ (some alg) false none asset.bytes buf' = .matched false ∧
+      (readBack trust true (List.replicate k true)
+          (C01.bindData ⟨false, none, dh.ranges, pre⟩ (some alg) false none asset.bytes buf')).map C04.state =
+        some (match trust with | .trusted => .trusted | .untrusted => .valid) := by
+  obtain ⟨manifest, dh, pre, h1, _, _, _, h5, h6, h7, prog, h8⟩ :=
+    sign_then_verify_core E alg src buf buf' n base hd hn hH hj hs laws hbuf hbuf' hsz fits
+  have hb : C01.bindData ⟨false, none, dh.ranges, pre⟩ (some alg) false none
+      (E.embed (firstOut E alg src n) manifest).bytes buf' = .matched false := by
+    have hr : dh.ranges = some (dh.excl.map toHR) := ranges_of_ne dh h6
+    have hlen := hone dh.excl h5
+    unfold C01.bindData C01.verifyData C01.compareHash
+    simp only [Bool.false_eq_true, if_false]
+    rw [h8]
+    simp only [if_true, hr, List.length_map]
+    have : ¬ dh.excl.length > 1 := by omega
+    simp [this]
+  exact ⟨_, manifest, dh, pre, h1, h7, hb, by rw [hb]; exact readBack_state trust k⟩
+
+/-! ### non-vacuity: the headline theorems instantiated on a concrete flow -/
 
 /-- a concrete container: 3-byte prefix, framing = 2-byte header + payload + 1-byte trailer,
 2-byte suffix -/
 def exSplit : Split :=
   { pre := fun _ => [1, 2, 3], suf := fun _ => [9, 9], wrap := fun j => [0xff, 0xeb] ++ j ++ [0] }
 
-example : ∀ j, 0 < (exSplit.wrap j).length := by intro j; simp [exSplit]
-example : ∀ j j' : List UInt8, j.length = j'.length → (exSplit.wrap j').length = (exSplit.wrap j).length := by
-  intro j j' h; simp [exSplit, h]
-example : ∀ m, C15.hdr (exSplit.pre m).length ≤ C15.hdr 3 + 2 := by
-  intro m; show C15.hdr 3 ≤ C15.hdr 3 + 2; omega
-example : digestLen "sha256" = some 32 := by decide
-/-- the flow on the concrete container really runs (and the binding verifies) -/
+/-- a 32-byte "digest" that depends on its input (byte sum) -/
+def exH (x : List UInt8) : List UInt8 := x.foldl (· + ·) 0 :: List.replicate 31 7
+
+def exJumbf (d : DHash) (σ : List UInt8) : List UInt8 := List.replicate (7 + d.size + σ.length) 5
+
+/-- **`split_sign_then_verify_valid` is not vacuous**: every hypothesis is discharged for a
+concrete container, serialisation, digest and signer, and the conclusion is obtained *from the
+theorem*. -/
+example : ∃ asset manifest dh,
+    saveToStream ⟨exSplit.embed, exJumbf, exH, fun _ => [1, 1], [0, 0]⟩ "sha256"
+      (Split.source [1, 2, 3, 9, 9] 3 4) 64 = .ok asset manifest dh ∧
+    verifyBinding exH "sha256" asset.bytes dh 3 = true :=
+  split_sign_then_verify_valid exSplit [1, 2, 3, 9, 9] 3 4 "sha256" 64 3 32 7 exJumbf exH
+    (fun _ => [1, 1]) [0, 0] (by decide) (by decide) (by decide)
+    (by intro x; simp [exH])
+    (by intro d σ; simp [exJumbf])
+    (by intro d; rfl)
+    (by intro j; simp [exSplit])
+    (by intro j j' h; simp [exSplit, h])
+    (by intro m; show C15.hdr 3 ≤ C15.hdr 3 + 2; omega)
+    (by decide) (by decide)
+    (by decide +kernel)
+
+/-- … and the value the theorem speaks about is the one the model computes (kernel evaluation
+of the same flow) -/
 example :
-    (match saveToStream ⟨exSplit.embed, fun d σ => List.replicate (7 + d.size + σ.length) 5,
-        fun x => x.take 1 ++ List.replicate 31 7, fun _ => [1, 1], [0, 0]⟩ "sha256"
+    (match saveToStream ⟨exSplit.embed, exJumbf, exH, fun _ => [1, 1], [0, 0]⟩ "sha256"
         (Split.source [1, 2, 3, 9, 9] 3 4) 64 with
-      | .ok a _ dh => verifyBinding (fun x => x.take 1 ++ List.replicate 31 7) "sha256" a.bytes dh 3
+      | .ok a m dh => verifyBinding exH "sha256" a.bytes dh 3 && decide (a.bytes.length = m.length + 8)
       | .err _ => false) = true := by decide +kernel
+
+/-- a concrete splice handler (same framing) -/
+def exSplice : Splice := { wrap := fun j => [0xff, 0xeb] ++ j ++ [0], ins := 2 }
+
+/-- **`splice_sign_then_verify_valid` instantiated**: the signed asset is the 9-byte source with
+its 4-byte region replaced by the framed final store -/
+example : ∃ asset manifest dh,
+    saveToStream ⟨exSplice.embed, exJumbf, exH, fun _ => [1, 1], [0, 0]⟩ "sha256"
+      (Split.source [1, 2, 3, 4, 5, 6, 7, 8, 9] 3 4) 64 = .ok asset manifest dh ∧
+    verifyBinding exH "sha256" asset.bytes dh 3 = true ∧
+    asset.bytes = [1, 2, 3] ++ exSplice.wrap manifest ++ [8, 9] :=
+  splice_sign_then_verify_valid exSplice [1, 2, 3, 4, 5, 6, 7, 8, 9] 3 4 "sha256" 64 3 32 7 exJumbf exH
+    (fun _ => [1, 1]) [0, 0] (by decide) (by decide) (by decide) (by decide)
+    (by intro x; simp [exH])
+    (by intro d σ; simp [exJumbf])
+    (by intro d; rfl)
+    (by intro j; simp [exSplice])
+    (by intro j j' h; simp [exSplice, h])
+    (by decide) (by decide)
+    (by decide +kernel)
+
+/-- **`sign_then_verify_valid` / `sign_then_state_valid` instantiated** (general theorem, handler
+laws discharged by `split_laws`): C01's verdict on the signed asset is `matched`, the read-back
+state with a trusted signer and three matching hashed URIs is `Trusted` -/
+example : ∃ asset manifest dh pre,
+    saveToStream ⟨exSplit.embed, exJumbf, exH, fun _ => [1, 1], [0, 0]⟩ "sha256"
+      (Split.source [1, 2, 3, 9, 9] 3 4) 64 = .ok asset manifest dh ∧
+    dh.hash = exH pre ∧
+    C01.bindData ⟨false, none, dh.ranges, pre⟩ (some "sha256") false none asset.bytes 3 = .matched false ∧
+    (readBack .trusted true (List.replicate 3 true)
+      (C01.bindData ⟨false, none, dh.ranges, pre⟩ (some "sha256") false none asset.bytes 3)).map C04.state
+      = some .trusted :=
+  sign_then_state_valid ⟨exSplit.embed, exJumbf, exH, fun _ => [1, 1], [0, 0]⟩ "sha256"
+    (Split.source [1, 2, 3, 9, 9] 3 4) 64 3 32 7 (by decide) (by decide)
+    (by intro x; simp [exH])
+    (by intro d σ; simp [exJumbf])
+    (by intro d; rfl)
+    (split_laws exSplit _ _ (by intro j _; simp [exSplit]) (by intro j j' h h'; simp [exSplit, h, h']))
+    (by decide) (by decide) (by decide +kernel)
+    (fun ex hex => (split_fits_hyp exSplit [1, 2, 3, 9, 9] 3 4 "sha256" 32 exJumbf exH (fun _ => [1, 1]) [0, 0]
+      (by decide) (by intro j; simp [exSplit]) (by intro m; show C15.hdr 3 ≤ C15.hdr 3 + 2; omega) ex hex).1)
+    (fun ex hex => (split_fits_hyp exSplit [1, 2, 3, 9, 9] 3 4 "sha256" 32 exJumbf exH (fun _ => [1, 1]) [0, 0]
+      (by decide) (by intro j; simp [exSplit]) (by intro m; show C15.hdr 3 ≤ C15.hdr 3 + 2; omega) ex hex).2)
+    .trusted 3
+
+/-- **`noembed_sign_then_verify_valid` instantiated**: a sidecar signing of a 5-byte asset whose
+handler reports a placeholder region -/
+example : ∃ manifest dh,
+    saveNoEmbed ⟨exSplit.embed, exJumbf, exH, fun _ => [1, 1], [0, 0]⟩ "sha256"
+      ⟨[1, 2, 3, 4, 5], [⟨2, 3, .cai⟩]⟩ 64 = .ok ⟨[1, 2, 3, 4, 5], [⟨2, 3, .cai⟩]⟩ manifest dh ∧
+    manifest.length = (exJumbf (placeholderDH "sha256" ⟨[1, 2, 3, 4, 5], [⟨2, 3, .cai⟩]⟩ 32) [0, 0]).length ∧
+    dh.excl = [] ∧ dh.hash = exH [1, 2, 3, 4, 5] ∧
+    verifyBinding exH "sha256" [1, 2, 3, 4, 5] dh 2 = true :=
+  noembed_sign_then_verify_valid ⟨exSplit.embed, exJumbf, exH, fun _ => [1, 1], [0, 0]⟩ "sha256"
+    ⟨[1, 2, 3, 4, 5], [⟨2, 3, .cai⟩]⟩ 64 2 32 7 (by decide) (by decide)
+    (by intro x; simp [exH])
+    (by intro d σ; simp [exJumbf])
+    (by intro d; rfl)
+    (by decide) (by decide) (by decide) (by decide) (by decide)
+
+/-- `no_source_region_fails` / `sign_ok_iff_fits` are not vacuous either: the same flow with a
+source for which the handler reports no region fails exactly as stated -/
+example :
+    (match saveToStream ⟨exSplit.embed, exJumbf, exH, fun _ => [1, 1], [0, 0]⟩ "sha256"
+        ⟨[1, 2, 3, 9, 9], []⟩ 64 with
+      | .err .jumbfCreation => true
+      | _ => false) = true := by decide +kernel
 
 /-! ### report -/
 
-theorem foldl_add_asn (f : Asn → Asn) (l : List Asn) (acc : List CAsn) :
-    (l.foldl (fun st a => addAssertion st (f a)) acc).map (·.asn) = acc.map (·.asn) ++ l.map f := by
+theorem foldl_add_asn (l : List Asn) (acc : List CAsn) :
+    (l.foldl addAssertion acc).map (·.asn) = acc.map (·.asn) ++ l := by
   induction l generalizing acc with
   | nil => simp
   | cons a t ih =>
-    simp only [List.foldl_cons, List.map_cons]
+    simp only [List.foldl_cons]
     rw [ih]
     simp [addAssertion]
 
-/-- **report_reflects_definition.** For every definition whose (normalised) labels are not
-hard-binding labels: the report carries the definition's title; its format exactly when the
-claim is version 1 (a version ≥ 2 claim has no `dc:format` field); and exactly the definition's
-assertions — same order, same payloads and kinds, labels unchanged except the documented
-`c2pa.actions` → `c2pa.actions.v2` — the hard binding added by the signing flow is not reported. -/
+theorem store_asns (d : Definition) : (toClaim d).store.map (·.asn) = allAsns d := by
+  rw [toClaim_store, foldl_add_asn]
+  rfl
+
+theorem classify_thumb (v : Nat) : classify (thumbLabel v) = .thumbnail := by
+  unfold thumbLabel; split <;> decide
+
+theorem classify_ingredient (v : Nat) : classify (ingredientLabel v) = .ingredient := by
+  unfold ingredientLabel; split <;> decide
+
+theorem filter_const_part (l : List Asn) (Q P : Part) (h : ∀ a ∈ l, classify a.label = Q) :
+    l.filter (fun a => classify a.label == P) = if Q = P then l else [] := by
+  by_cases hq : Q = P
+  · rw [if_pos hq]
+    apply List.filter_eq_self.2
+    intro a ha
+    rw [h a ha, hq]; simp
+  · rw [if_neg hq]
+    apply List.filter_eq_nil_iff.2
+    intro a ha
+    rw [h a ha]; simpa using hq
+
+/-- how `Manifest::from_store` partitions what the claim stores -/
+theorem filter_allAsns (d : Definition)
+    (hl : ∀ a ∈ d.assertions, classify (normLabel a.label) = .assertion) (P : Part) :
+    (allAsns d).filter (fun a => classify a.label == P) =
+      (if Part.thumbnail = P then (if d.thumbnail then [(⟨thumbLabel d.version, "", false⟩ : Asn)] else []) else []) ++
+      (if Part.ingredient = P then (List.replicate d.ingredients (ingredientLabel d.version)).map
+        (fun l => (⟨l, "", false⟩ : Asn)) else []) ++
+      (if Part.assertion = P then d.assertions.map (fun a => { a with label := normLabel a.label }) else []) ++
+      (if Part.hidden = P then [(⟨"c2pa.hash.data", "", false⟩ : Asn)] else []) := by
+  unfold allAsns preLabels
+  simp only [List.map_append, List.filter_append]
+  rw [filter_const_part _ .thumbnail P, filter_const_part _ .ingredient P,
+    filter_const_part _ .assertion P, filter_const_part _ .hidden P]
+  · cases hd : d.thumbnail <;> simp
+  · intro a ha
+    simp only [List.mem_singleton] at ha
+    subst ha; decide
+  · intro a ha
+    obtain ⟨b, hb, rfl⟩ := List.mem_map.1 ha
+    exact hl b hb
+  · intro a ha
+    obtain ⟨l, hl', rfl⟩ := List.mem_map.1 ha
+    rw [(List.mem_replicate.1 hl').2]
+    exact classify_ingredient _
+  · intro a ha
+    obtain ⟨l, hl', rfl⟩ := List.mem_map.1 ha
+    cases hd : d.thumbnail with
+    | false => simp [hd] at hl'
+    | true =>
+      simp only [hd, if_true, List.mem_singleton] at hl'
+      rw [hl']; exact classify_thumb _
+
+theorem map_asn_filter (S : List CAsn) (P : Part) :
+    (S.filter (fun x => classify x.asn.label == P)).map (·.asn) =
+      (S.map (·.asn)).filter (fun a => classify a.label == P) := by
+  rw [List.filter_map]
+  rfl
+
+/-- **report_reflects_definition.** For every definition whose (re-labelled) assertion labels
+are reported as assertions (not `c2pa.ingredient…`, `c2pa.thumbnail.claim…` or hard-binding
+labels): the report carries the definition's title; its format exactly when the claim is
+version 1 (a version ≥ 2 claim has no `dc:format` field); exactly the definition's assertions —
+same order, same payloads and kinds, labels unchanged except the documented `c2pa.actions…` →
+`c2pa.actions.v2`; exactly as many ingredients as supplied; a thumbnail exactly when one was
+supplied; and the hard binding added by the signing flow is not reported. (Instance numbers:
+`report_instances`.) -/
 theorem report_reflects_definition (d : Definition)
-    (hl : ∀ a ∈ d.assertions, isHardBinding (normLabel a.label) = false) :
+    (hl : ∀ a ∈ d.assertions, classify (normLabel a.label) = .assertion) :
     (report (wire (toClaim d))).title = d.title ∧
     ((report (wire (toClaim d))).format = if d.version ≥ 2 then none else some d.format) ∧
     (report (wire (toClaim d))).assertions.map (·.asn) =
-      d.assertions.map (fun a => { a with label := normLabel a.label }) := by
-  refine ⟨rfl, rfl, ?_⟩
-  unfold report wire toClaim
-  simp only
-  let store := d.assertions.foldl (fun st a => addAssertion st { a with label := normLabel a.label }) []
-  have hmap : store.map (·.asn) = d.assertions.map (fun a => { a with label := normLabel a.label }) := by
-    have := foldl_add_asn (fun a => { a with label := normLabel a.label }) d.assertions []
-    simpa using this
-  have hall : ∀ x ∈ store, (!isHardBinding x.asn.label) = true := by
-    intro x hx
-    have : x.asn ∈ store.map (·.asn) := List.mem_map_of_mem hx
-    rw [hmap] at this
-    obtain ⟨a, ha, h⟩ := List.mem_map.1 this
-    rw [← h]
-    simp [hl a ha]
-  show ((addAssertion store ⟨"c2pa.hash.data", "", false⟩).filter fun x => !isHardBinding x.asn.label).map (·.asn) = _
-  unfold addAssertion
-  rw [List.filter_append, List.filter_eq_self.2 hall]
-  have : isHardBinding "c2pa.hash.data" = true := by decide
-  simp [this, hmap]
+      d.assertions.map (fun a => { a with label := normLabel a.label }) ∧
+    (report (wire (toClaim d))).ingredients.map (·.asn) =
+      List.replicate d.ingredients ⟨ingredientLabel d.version, "", false⟩ ∧
+    (report (wire (toClaim d))).thumbnail.map (·.asn) =
+      (if d.thumbnail then some ⟨thumbLabel d.version, "", false⟩ else none) := by
+  refine ⟨rfl, rfl, ?_, ?_, ?_⟩
+  · show ((toClaim d).store.filter (fun x => classify x.asn.label == .assertion)).map (·.asn) = _
+    rw [map_asn_filter, store_asns, filter_allAsns d hl]
+    simp
+  · show ((toClaim d).store.filter (fun x => classify x.asn.label == .ingredient)).map (·.asn) = _
+    rw [map_asn_filter, store_asns, filter_allAsns d hl]
+    simp
+  · show (((toClaim d).store.filter (fun x => classify x.asn.label == .thumbnail)).getLast?).map (·.asn) = _
+    rw [← List.getLast?_map, map_asn_filter, store_asns, filter_allAsns d hl]
+    cases d.thumbnail <;> simp
 
-example : ∀ a ∈ [(⟨"c2pa.actions", "x", false⟩ : Asn), ⟨"org.verif.custom", "y", true⟩],
-    isHardBinding (normLabel a.label) = false := by decide
+theorem zip_asn_inst (S : List CAsn) : S = List.zipWith CAsn.mk (S.map (·.asn)) (S.map (·.inst)) := by
+  induction S with
+  | nil => rfl
+  | cons x t ih => simp only [List.map_cons, List.zipWith_cons_cons]; rw [← ih]
+
+/-- **report_instances.** The reported assertions (and ingredients) *with their instance
+numbers*: the claim store is the stored assertions paired with the number of earlier stored
+assertions of the same label, and the report is its filter — for every definition in which no
+stored label is a proper substring of another stored label (`next_instance` filters by
+substring; see the example below for what happens otherwise). -/
+theorem report_instances (d : Definition) (hnp : NoProperInfix (allLabels d)) :
+    (report (wire (toClaim d))).assertions =
+      (List.zipWith CAsn.mk (allAsns d) (occBefore (allLabels d))).filter
+        (fun x => classify x.asn.label == .assertion) ∧
+    (report (wire (toClaim d))).ingredients =
+      (List.zipWith CAsn.mk (allAsns d) (occBefore (allLabels d))).filter
+        (fun x => classify x.asn.label == .ingredient) := by
+  obtain ⟨h1, h2⟩ := claim_store_spec d hnp
+  have hS : (toClaim d).store = List.zipWith CAsn.mk (allAsns d) (occBefore (allLabels d)) := by
+    rw [← h1, ← h2]; exact zip_asn_inst _
+  exact ⟨by show (toClaim d).store.filter _ = _; rw [hS], by show (toClaim d).store.filter _ = _; rw [hS]⟩
+
+/-- pairwise distinct stored labels, none a substring of another: every reported instance is 0 -/
+theorem report_instances_zero (d : Definition) (hnp : NoProperInfix (allLabels d))
+    (hnd : (allLabels d).Nodup) : ∀ x ∈ (report (wire (toClaim d))).assertions, x.inst = 0 := by
+  intro x hx
+  have : x ∈ (toClaim d).store := (List.mem_filter.1 hx).1
+  exact claim_instances_zero d hnp hnd x this
+
+def exDef : Definition :=
+  { title := some "t", format := "image/jpeg", version := 2
+    assertions := [⟨"c2pa.actions", "x", false⟩, ⟨"org.verif.custom", "y", true⟩, ⟨"org.verif.custom", "z", true⟩]
+    thumbnail := true, ingredients := 2 }
+
+example : ∀ a ∈ exDef.assertions, classify (normLabel a.label) = .assertion := by decide
+example : NoProperInfix (allLabels exDef) := by unfold NoProperInfix; decide
+/-- duplicate labels are numbered 0, 1 (and the second ingredient is `__1`) -/
+example : (report (wire (toClaim exDef))).assertions.map (fun x => (x.asn.label, x.inst)) =
+    [("c2pa.actions.v2", 0), ("org.verif.custom", 0), ("org.verif.custom", 1)] ∧
+    (report (wire (toClaim exDef))).ingredients.map (·.inst) = [0, 1] := by decide
+/-- what the substring test does outside `NoProperInfix`: the *first* `org.verif` assertion is
+numbered 1 because the earlier label `org.verif.custom` contains it (the harness compares the
+implementation with exactly this numbering) -/
+example : (report (wire (toClaim { exDef with assertions :=
+      [⟨"org.verif.custom", "y", true⟩, ⟨"org.verif", "z", true⟩] }))).assertions.map
+        (fun x => (x.asn.label, x.inst)) = [("org.verif.custom", 0), ("org.verif", 1)] := by decide
 
 end C2pa.C03
